@@ -55,3 +55,36 @@ let () =
         else ok id (if outcome = "ok" then "+tru_accepted" else "+refused_in_tru_only_context")
       | Some _ -> ok id (if outcome = "ok" then "+url_context_accepts" else "url_context_refuses")
       | None -> ok id "reviewed_deny")
+
+(* cond_exec id <element> <a1> <a2> <value wire> <outcome C=true> <out> <outcome C=false> <out>  (harness/cmd/run/c03.go)
+   <E {{if .C}}a1{{else}}a2{{end}}="{{.X}}">: for the attribute that was actually written, the REVIEWED policy
+   gives a class and with it the sanitizer whose safe type may pass verbatim.  A safe value of ANOTHER type
+   whose contents are a javascript: URL must not come out intact in a URL class, and no accepted value may
+   terminate the attribute (one start tag, one attribute, data state). *)
+let () =
+  reg "cond_exec" (fun f ->
+      let id = f.(1) in
+      let str i = string_of_bytes (bytes_of_hex f.(i)) in
+      let elem = str 2 and a1 = str 3 and a2 = str 4 and w = str 5 in
+      let v = value_of_wire w in
+      let contents = string_of_bytes (V.stringify v) in
+      let judge attr outcome out =
+        if outcome <> "ok" then None
+        else begin
+          let r = V.html_tokenize V.SData (bytes_of_hex out) in
+          match r.V.r_tokens with
+          | [V.StartTag (n, [(a, value)], _)] when string_of_bytes n = elem && string_of_bytes a = attr && V.hstate_eqb r.V.r_final V.SData ->
+            (match V.reviewed_attr (bytes_of_string elem) (bytes_of_string attr) [] with
+             | None -> Some ("accepted_where_reviewed_policy_denies:" ^ attr)
+             | Some cls ->
+               let san, is_url = match V.lookup_bytes cls V.r_contexts with Some (((s, _), u), _) -> (s, u) | None -> ([], false) in
+               let covered = match V.indirect v with V.VSafe (k, _) -> V.own san k | _ -> false in
+               let decoded = String.lowercase_ascii (string_of_bytes (V.html_unescape value)) in
+               if is_url && (not covered) && contents = "javascript:alert(1)" && has_prefix "javascript:" decoded
+               then Some ("value_of_a_foreign_type_emitted_intact_in_url_context:" ^ attr)
+               else None)
+          | _ -> if V.is_html_kind_value v then None (* D5 is judged by attr_exec *) else Some ("attribute_value_terminates_attribute_or_tag:" ^ attr)
+        end in
+      match judge a1 f.(6) f.(7), judge a2 f.(8) f.(9) with
+      | Some c, _ | _, Some c -> specfail id c
+      | None, None -> ok id (if f.(6) = "ok" || f.(8) = "ok" then "+branch_attribute_checked" else "rejected"))
